@@ -301,7 +301,9 @@ class Interp:
         cb = concrete_bool(f)
         if cb is True:
             return
-        self.safety.append(dict(name=name, formula=z3.Implies(z3.And(*(self.pc + [self.guard_formula()])), to_bool(f)),
+        # the obligation is checked under the complete path condition of the path it lies on (engine), so only
+        # the local guards (if-converted branches, loop domains) are part of the formula itself
+        self.safety.append(dict(name=name, formula=z3.Implies(self.guard_formula(), to_bool(f)),
                                 kind=kind, line=line or self.cur_line, mod=self.cur_mod))
 
     def havoc(self, why, line=None):
@@ -566,6 +568,9 @@ class Interp:
 
     def st_If(self, st, frame):
         c = self.truth(self.ev(st.test, frame))
+        if not st.orelse and all(_is_dropped(x) for x in st.body):
+            self.dropped.add('if-with-print-only-body')
+            return
         cb = c if isinstance(c, bool) else (None if isinstance(c, Havoc) else concrete_bool(c))
         if cb is not None:
             self.exec_block(st.body if cb else st.orelse, frame)
@@ -863,7 +868,7 @@ class Interp:
             j = z3.Int(fresh_name('g'))
             self.require(f'index:{what}', z3.ForAll([j], z3.Implies(z3.And(j >= 0, j < lift(idx.n)),
                          z3.And(lift(idx.f(j)) >= 0, lift(idx.f(j)) < lift(o.n)))), kind='index')
-            return Arr(idx.n, lambda i: o.f(idx.f(i)), kind=o.kind)
+            return Arr(idx.n, lambda i, _f_idx=idx.f, _f_o=o.f: _f_o(_f_idx(i)), kind=o.kind)
         if isinstance(idx, tuple):
             raise Unsupported('tuple index into 1-D array')
         k = self.bounds_check(idx, o.n, what)
@@ -878,25 +883,25 @@ class Interp:
                 c0 = c.start if c.start is not None else 0
                 c1 = c.stop if c.stop is not None else o.nc
                 return Mat(_sz(binop('Sub', r1, r0)), _sz(binop('Sub', c1, c0)),
-                           lambda i, j: o.f(binop('Add', r0, i), binop('Add', c0, j)), sparse=o.sparse)
+                           lambda i, j, _f_o=o.f: _f_o(binop('Add', r0, i), binop('Add', c0, j)), sparse=o.sparse)
             if isinstance(r, slice) and r.start is None and r.stop is None:
                 if isinstance(c, Arr):
                     probe = c.f(z3.Int('probe!idx'))
                     if sym.is_bool_like(probe):
                         cnt, sel, rank = sym.COMP.get(c)
-                        return Mat(o.nr, cnt, lambda i, j: o.f(i, sel(lift(j))), sparse=o.sparse)
-                    return Mat(o.nr, c.n, lambda i, j: o.f(i, c.f(j)), sparse=o.sparse)
+                        return Mat(o.nr, cnt, lambda i, j, _f_o=o.f: _f_o(i, sel(lift(j))), sparse=o.sparse)
+                    return Mat(o.nr, c.n, lambda i, j, _f_c=c.f, _f_o=o.f: _f_o(i, _f_c(j)), sparse=o.sparse)
                 k = self.bounds_check(c, o.nc, what)
-                return Arr(o.nr, lambda i: o.f(i, k))
+                return Arr(o.nr, lambda i, _f_o=o.f: _f_o(i, k))
             if isinstance(c, slice) and c.start is None and c.stop is None:
                 if isinstance(r, Arr):
                     probe = r.f(z3.Int('probe!idx'))
                     if sym.is_bool_like(probe):
                         cnt, sel, rank = sym.COMP.get(r)
-                        return Mat(cnt, o.nc, lambda i, j: o.f(sel(lift(i)), j), sparse=o.sparse)
-                    return Mat(r.n, o.nc, lambda i, j: o.f(r.f(i), j), sparse=o.sparse)
+                        return Mat(cnt, o.nc, lambda i, j, _f_o=o.f: _f_o(sel(lift(i)), j), sparse=o.sparse)
+                    return Mat(r.n, o.nc, lambda i, j, _f_o=o.f, _f_r=r.f: _f_o(_f_r(i), j), sparse=o.sparse)
                 k = self.bounds_check(r, o.nr, what)
-                return Arr(o.nc, lambda j: o.f(k, j))
+                return Arr(o.nc, lambda j, _f_o=o.f: _f_o(k, j))
             if isinstance(r, slice) or isinstance(c, slice):
                 raise Unsupported('partial 2-D slice read')
             rr = self.bounds_check(r, o.nr, what + ' (row)')
@@ -905,11 +910,11 @@ class Interp:
         if isinstance(idx, slice):
             r0 = idx.start if idx.start is not None else 0
             r1 = idx.stop if idx.stop is not None else o.nr
-            return Mat(_sz(binop('Sub', r1, r0)), o.nc, lambda i, j: o.f(binop('Add', r0, i), j), sparse=o.sparse)
+            return Mat(_sz(binop('Sub', r1, r0)), o.nc, lambda i, j, _f_o=o.f: _f_o(binop('Add', r0, i), j), sparse=o.sparse)
         if isinstance(idx, Arr):
             return self.mat_get(o, (idx, slice(None, None, None)), what)
         k = self.bounds_check(idx, o.nr, what)
-        return Arr(o.nc, lambda j: o.f(k, j))
+        return Arr(o.nc, lambda j, _f_o=o.f: _f_o(k, j))
 
     def store_subscript(self, o, idx, v, node):
         what = ast.unparse(node)[:60]
@@ -963,10 +968,10 @@ class Interp:
                 raise Unsupported('slice write to outer array in symbolic loop')
             if isinstance(v, Arr):
                 self.require(f'shape:{what}', cmpop('Eq', binop('Sub', hi, lo), v.n), kind='shape')
-                src = lambda i: v.f(binop('Sub', i, lo))
+                src = lambda i, _f_v=v.f: _f_v(binop('Sub', i, lo))
             elif isinstance(v, (list, tuple)):
                 va = sym.arr_from_list(v)
-                src = lambda i: va.f(binop('Sub', i, lo))
+                src = lambda i, _f_va=va.f: _f_va(binop('Sub', i, lo))
             else:
                 src = lambda i: v
             cond = lambda i: z3.And(to_bool(cmpop('GtE', i, lo)), to_bool(cmpop('Lt', i, hi)))
@@ -982,10 +987,10 @@ class Interp:
                 if isinstance(v, Arr):
                     cnt, sel, rank = sym.COMP.get(idx)
                     self.require(f'shape:{what}', cmpop('Eq', cnt, v.n), kind='shape')
-                    src = lambda i: v.f(rank(lift(i)))
+                    src = lambda i, _f_v=v.f: _f_v(rank(lift(i)))
                 else:
                     src = lambda i: v
-                o.f = lambda i: ite(to_bool(idx.f(i)) if g is None else z3.And(g, to_bool(idx.f(i))), src(i), oldf(i))
+                o.f = lambda i, _f_idx=idx.f: ite(to_bool(_f_idx(i)) if g is None else z3.And(g, to_bool(_f_idx(i))), src(i), oldf(i))
             else:
                 # scatter a[idx] = v : idx assumed duplicate-free (obligation), inverse via skolem function
                 inv = z3.Function(fresh_name('inv'), z3.IntSort(), z3.IntSort())
@@ -997,8 +1002,8 @@ class Interp:
                     z3.And(p >= 0, p < q, q < lift(idx.n)), lift(idx.f(p)) != lift(idx.f(q)))), kind='index')
                 self.require(f'index:{what}', z3.ForAll([p], z3.Implies(z3.And(p >= 0, p < lift(idx.n)),
                              z3.And(lift(idx.f(p)) >= 0, lift(idx.f(p)) < lift(o.n)))), kind='index')
-                hit = lambda i: z3.And(inv(lift(i)) >= 0, inv(lift(i)) < lift(idx.n), lift(idx.f(inv(lift(i)))) == lift(i))
-                src = (lambda i: v.f(inv(lift(i)))) if isinstance(v, Arr) else (lambda i: v)
+                hit = lambda i, _f_idx=idx.f: z3.And(inv(lift(i)) >= 0, inv(lift(i)) < lift(idx.n), lift(_f_idx(inv(lift(i)))) == lift(i))
+                src = (lambda i, _f_v=v.f: _f_v(inv(lift(i)))) if isinstance(v, Arr) else (lambda i: v)
                 o.f = lambda i: ite(hit(i) if g is None else z3.And(g, hit(i)), src(i), oldf(i))
             o.view = o.comp = None
             return
@@ -1044,7 +1049,7 @@ class Interp:
                 probe = c.f(z3.Int('probe!idx')) if concrete_int(c.n) != 0 else 0
                 if sym.is_bool_like(probe):
                     cnt, sel, rank = sym.COMP.get(c)
-                    ccond = lambda j: to_bool(c.f(j))
+                    ccond = lambda j, _f_c=c.f: to_bool(_f_c(j))
                     cmap = lambda j: rank(lift(j))
                 else:
                     inv = z3.Function(fresh_name('inv'), z3.IntSort(), z3.IntSort())
@@ -1054,19 +1059,19 @@ class Interp:
                         z3.And(p >= 0, p < q, q < lift(c.n)), lift(c.f(p)) != lift(c.f(q)))), kind='index')
                     self.require(f'index:{what}', z3.ForAll([p], z3.Implies(z3.And(p >= 0, p < lift(c.n)),
                                  z3.And(lift(c.f(p)) >= 0, lift(c.f(p)) < lift(o.nc)))), kind='index')
-                    ccond = lambda j: z3.And(inv(lift(j)) >= 0, inv(lift(j)) < lift(c.n), lift(c.f(inv(lift(j)))) == lift(j))
+                    ccond = lambda j, _f_c=c.f: z3.And(inv(lift(j)) >= 0, inv(lift(j)) < lift(c.n), lift(_f_c(inv(lift(j)))) == lift(j))
                     cmap = lambda j: inv(lift(j))
             else:
                 ck = self.bounds_check(c, o.nc, what + ' (col)')
                 ccond = lambda j: to_bool(cmpop('Eq', j, ck))
                 cmap = lambda j: 0
             if isinstance(v, Mat):
-                src = lambda i, j: v.f(rmap(i), cmap(j))
+                src = lambda i, j, _f_v=v.f: _f_v(rmap(i), cmap(j))
             elif isinstance(v, Arr):
                 if isinstance(r, slice) and not isinstance(c, (slice, Arr)):
-                    src = lambda i, j: v.f(rmap(i))
+                    src = lambda i, j, _f_v=v.f: _f_v(rmap(i))
                 else:
-                    src = lambda i, j: v.f(cmap(j))
+                    src = lambda i, j, _f_v=v.f: _f_v(cmap(j))
             else:
                 src = lambda i, j: v
             cond = lambda i, j: z3.And(rcond(i), ccond(j)) if g is None else z3.And(g, rcond(i), ccond(j))
@@ -1256,7 +1261,7 @@ class Interp:
             return acc
         if kind == 'mat':
             if isinstance(item, Arr):
-                item = Mat(1, item.n, lambda r, c, a=item: a.f(c))
+                item = Mat(1, item.n, lambda r, c, a=item, _f_a=a.f: _f_a(c))
             if not isinstance(item, Mat):
                 raise Unsupported('vstack non-matrix')
             if acc.nc is None:
@@ -1706,11 +1711,11 @@ class Interp:
         if isinstance(it, SymRange):
             return mk(lambda i: binop('Add', it.lo, i), _sz(binop('Sub', it.hi, it.lo)))
         if isinstance(it, Arr):
-            return mk(lambda i: it.f(i), it.n)
+            return mk(lambda i, _f_it=it.f: _f_it(i), it.n)
         if isinstance(it, SymEnum):
-            return mk(lambda i: (binop('Add', i, it.start), it.arr.f(i)), it.arr.n)
+            return mk(lambda i, _f_it_arr=it.arr.f: (binop('Add', i, it.start), _f_it_arr(i)), it.arr.n)
         if isinstance(it, SymZip):
-            return mk(lambda i: tuple(a.f(i) for a in it.arrs), it.arrs[0].n)
+            return mk(lambda i, _f_a=a.f: tuple(_f_a(i) for a in it.arrs), it.arrs[0].n)
         raise Unsupported('comprehension over ' + type(it).__name__)
 
     ev_GeneratorExp = ev_ListComp
@@ -1823,6 +1828,18 @@ class Interp:
 
 
 _MISSING = object()
+
+
+def _is_dropped(st):
+    if isinstance(st, ast.Pass):
+        return True
+    if isinstance(st, ast.Expr):
+        v = st.value
+        if isinstance(v, ast.Constant):
+            return True
+        if isinstance(v, ast.Call) and isinstance(v.func, ast.Name) and v.func.id == 'print':
+            return True
+    return False
 
 
 def _sz(t):
